@@ -36,7 +36,7 @@ def _hooked():
 
 CONVERTERS.append(_hooked)   # index 2: a subclass using the documented identifier hook (rejects 'y' / 'bad', strips a leading 'X')
 
-CELLS = ["http://x/1", "http://y/2", "a:1", "A1:2", "http://q/1", "zz:1", "nodelim", "", "http://x/\t1", 'a:"q"', "http://x/1\n2", "a:1\r2", "\ufeffa:1", "a:q/7", "http://x/C_1"]
+CELLS = ["http://x/1", "http://y/2", "a:1", "A1:2", "http://q/1", "zz:1", "nodelim", "", "http://x/\t1", 'a:"q"', "http://x/1\n2", "a:1\r2", "\ufeffa:1", "a:q/7", "http://x/C_1", "http://x/z9"]   # the last: under a's prefix, sorting after the nested prefix http://x/C_
 CELLS_SMALL = ["http://x/1", "A1:2", "zz:1", "", 'a:"q"', "a:1\r2", "\ufeffa:1", "a:q/7"]   # the last starts with a byte-order mark
 OTHER = ["k", "has\ttab", 'q"uote', "line\nbreak", "cr\rx", "", "com,ma", " led", "trailed ", " q\"x"]
 SHORT = "<short-row>"   # a row with a single cell
